@@ -13,7 +13,8 @@
 (* struct  [kind "struct", enc "array"|"map", tag (-1 none), transparent,  *)
 (*          shape "named"|"tuple", fields (ascending index)]               *)
 (* field   [idx, opt, tag, ty, skip]                                       *)
-(*         ty: "u8" "str" "bytes" (with = minicbor::bytes) "cu" (custom    *)
+(*         ty: "u8" "str" "bytes" (with = minicbor::bytes), borrowing text  *)
+(*         / byte types (TextTys, BytesTys below), "cu" (custom             *)
 (*         nil-aware codec) or a nested type: "inA" "inM" (structs),       *)
 (*         "e2" "e2x" "e2u" (regular enums) "io" "iox" (index_only enums)  *)
 (* enum    [kind "enum", enc, tag, index_only, variants]                   *)
@@ -56,6 +57,12 @@ Nested(ty) == CASE ty = "inA" -> InA [] ty = "inM" -> InM [] ty = "e2" -> E2 [] 
 IsNestedTy(ty) == ty \in {"inA", "inM", "e2", "e2x", "e2u", "io", "iox", "e2m", "e2mu", "e2a", "e2au"}
 IsEnumTy(ty) == ty \in {"e2", "e2x", "e2u", "io", "iox", "e2m", "e2mu", "e2a", "e2au"}
 
+(* text and byte-string field types.  "str" String, "bytes" Vec<u8> with = minicbor::bytes; the others borrow from the    *)
+(* decoding input (C09): "bstr" &str, "bslice" &ByteSlice, "bu8" &[u8] with = minicbor::bytes (all three also implicitly, *)
+(* whatever the n / b spelling), "cowb" Cow<str> marked b (decoded as Cow::Borrowed); "cown" Cow<str> marked n owns.      *)
+TextTys  == {"str", "bstr", "cowb", "cown"}
+BytesTys == {"bytes", "bslice", "bu8"}
+MustBorrow(ty) == ty \in {"bstr", "bslice", "bu8", "cowb"}
 \* ---- values ----------------------------------------------------------------------------
 FV(some, n, b, sub) == [some |-> some, n |-> n, b |-> b, sub |-> sub]
 None == FV(FALSE, 0, <<>>, <<>>)
@@ -76,8 +83,8 @@ DocEnc(S, v) == DocEncP(S, v, NoPt)
 \* the value of a field (not nil), without its tag
 EncField(f, x) ==
    CASE f.ty = "u8"    -> Uint(x.n)
-     [] f.ty = "str"   -> PreferredHead(3, FromNat(Len(x.b))) \o x.b
-     [] f.ty = "bytes" -> PreferredHead(2, FromNat(Len(x.b))) \o x.b
+     [] f.ty \in TextTys  -> PreferredHead(3, FromNat(Len(x.b))) \o x.b
+     [] f.ty \in BytesTys -> PreferredHead(2, FromNat(Len(x.b))) \o x.b
      [] f.ty = "cu"    -> Uint(x.n + 1000)
      [] OTHER          -> DocEnc(Nested(f.ty), x.sub)
 Live(fields) == { i \in 1..Len(fields) : ~fields[i].skip }
